@@ -78,7 +78,7 @@ func coreC05(tier string) []RunSpec {
 	// a swap of the melt's inputs racing the melt request, for each pay answer
 	for pay := 0; pay < 4; pay++ {
 		for k := 0; k < 12; k++ {
-			out = append(out, RunSpec{Profile: "core:race", Params: map[string]int{"race": 1, "pay": pay, "k": k, "n": 0, "racer": k % 3}})
+			out = append(out, RunSpec{Profile: "core:race", Params: map[string]int{"race": 1, "pay": pay, "k": k, "n": 0, "racer": k % 4}})
 		}
 	}
 	// one storage error inside the melt call or inside the poll that would adopt the outcome
@@ -637,7 +637,18 @@ func c05Race(rc *RunCtx, m *MW, inv *LNInvoice, amt uint64, mpp bool, payMode st
 	fee := m.feeFor("A", ins)
 	outs := W.NewOutputs(Split(SumH(ins)-fee), ks.ID)
 	var meltResp, swapResp *Resp
-	racer := rc.P("racer", rc.T.Choose("race.racer", 3)) % 3
+	racer := rc.P("racer", rc.T.Choose("race.racer", 4)) % 4
+	var qB *MeltQuote
+	if racer == 3 {
+		// the racer is a melt request on ANOTHER quote naming the same inputs; its own payment would fail
+		// at once, so whichever request gets the inputs, they end up with this melt or free
+		invB := W.LN.NewExternalInvoice(amt * 1000)
+		W.LN.Scripts[invB.Hash] = &LNScript{Pay: "failed", Status: []string{"failed", "failed"}}
+		rc.Quietly(func() { qB, _ = m.Atk.ReqMeltQuote("A", invB.Bolt11, 0) })
+		if qB == nil || qB.Amount+qB.Reserve+fee > SumH(ins) {
+			racer = 0
+		}
+	}
 	if racer != 0 {
 		// polls may reach the backend before it knows of the payment: only a truthful backend makes
 		// sense then (a scripted "succeeded" for a payment that does not exist yet would be a lie)
@@ -650,6 +661,10 @@ func c05Race(rc *RunCtx, m *MW, inv *LNInvoice, amt uint64, mpp bool, payMode st
 	switch racer {
 	case 0:
 		rc.S.Go("raceswap", W.Ext, true, func() { _, swapResp = m.Atk.Swap("A", ins, outs) })
+	case 3:
+		swapResp = &Resp{Status: 400}
+		rc.S.Go("racemelt", W.Ext, true, func() { m.Atk.Melt("A", qB.ID, ins) })
+		rc.S.Probe("c05_race_melt_on_other_quote")
 	default:
 		// state checks / quote polls landing while the melt request is being processed (also in the
 		// window after the quote went PENDING and before the backend knows of the payment: "not
